@@ -34,12 +34,12 @@ PROP = {
         'pkg': 'pkg/scheduler/plugins/elasticquota/core',
         'files': ['C02/c02_oracle_test.go', 'C02/c02_flat_test.go', 'C02/c02_tree_test.go'],
         'tests': [
-            {'run': 'TestVerifC02Flat', 'quick': 20000, 'thorough': 300000},
+            {'run': 'TestVerifC02Flat', 'quick': 20000, 'thorough': 200000},
             {'run': 'TestVerifC02Exhaustive', 'rapid': False, 'quick': 1, 'thorough': 1, 'quick_shards': 4, 'shards': 4,
              'env': {'VERIF_C02_EXSHARDS': '4'}, 'timeout_quick': 300, 'timeout_thorough': 600},
-            {'run': 'TestVerifC02Hamilton', 'quick': 20000, 'thorough': 300000},
-            {'run': 'TestVerifC02Order', 'quick': 10000, 'thorough': 150000},
-            {'run': 'TestVerifC02Tree', 'quick': 3000, 'thorough': 50000},
+            {'run': 'TestVerifC02Hamilton', 'quick': 20000, 'thorough': 200000},
+            {'run': 'TestVerifC02Order', 'quick': 10000, 'thorough': 100000},
+            {'run': 'TestVerifC02Tree', 'quick': 3000, 'thorough': 35000},
         ],
     }],
     'manifest': {
